@@ -506,11 +506,11 @@ func (s *Sched) Step(t *Task) {
 func (s *Sched) strayEvent(tt *Task) {
 	r := getReq(tt)
 	if tt.State == StExt && r != nil && r.extEnd {
-		// not logged here: two tasks woken by one chunk of responses come back in
-		// real-time order; the session logs their return in request-id order
+		// The task is back in real time, but WHEN that happens relative to the
+		// scheduler's steps is not deterministic: it stays in state StExt (not
+		// runnable) until AwaitExt admits it at the deterministic rendezvous
+		// point.  Not logged here for the same reason.
 		tt.ExtReturned = true
-		tt.State = StParked
-		tt.Blocked = false
 		return
 	}
 	panic(fmt.Sprintf("simrt: event from %v (state %v, req %v) while another task runs", tt, tt.State, r))
@@ -524,10 +524,12 @@ func (s *Sched) AwaitExt(t *Task) {
 	}
 	activeScheds.Add(1)
 	defer activeScheds.Add(-1)
-	for t.State == StExt {
+	for !t.ExtReturned {
 		tt := s.wait()
 		s.strayEvent(tt)
 	}
+	t.State = StParked
+	t.Blocked = false
 }
 
 // ExtEnd is called by a task when the external call it detached into has
